@@ -168,7 +168,7 @@ CHECKS["C11"] = dict(
          "co-spherical sets) and degenerate tessellations that reach the exact path are compared byte for byte; ibig against the extracted model.",
     note="The crates' arithmetic is assumed (hypotheses of the theorem). rug cannot be built here (GMP/m4).", design="5 C11")
 CHECKS["C19"] = dict(
-    technique="Coq proofs of the defining equations as polynomial identities (ring) and extend's minimality over R (lra/field) + residual checks on the public functions",
+    technique="Coq proofs of the defining equations as polynomial identities (ring) and extend's minimality over R (lra/field); the plane helpers, signed measures and the two-point sphere are translated from src/geometry.rs into Gallina on every run (tools/translate_geom.py) and the equations proved about the translation (field) + residual checks on the public functions",
     text="Theorems: three-plane intersection lies on all three planes; projection lands on the plane, along the normal, idempotent; projection onto the intersection line is on "
          "both planes and perpendicular; signed volume/area antisymmetry and sign convention; two/three-point spheres pass through the points (centre in plane); extend yields "
          "the smallest sphere containing both. Tie: the public functions on random/structured/scaled/offset arguments of bounded conditioning: residuals of the equations on "
